@@ -733,7 +733,7 @@ func (e *env) serviceGatedPhase() {
 
 func main() {
 	r := ev.New("C15", "exploration")
-	r.Rule("gated: one execution per release order of the storage operations (Load/Save of gc/safe_point) of 2-3 concurrent UpdateGCSafePoint (+1 Get) over value tuples from {10,20,30,40}, enumerated depth-first (distinct = value tuple x released (worker,op) sequence); free-running: 2-16 goroutines, <=3 ops each, random values (distinct = init x sequence of stored values); faulted histories: 8-14 steps from {update, update with fail-before / lost-ack on its save, get, burst of 2 updates + 1 get with a fault on the first save, leader re-election of the serving member} with unique values (distinct = step shape); service safe points: random sequential histories (distinct = accept/reject/remove shape) and gated concurrent registrations (distinct = schedule)")
+	r.Rule("gated: one execution per release order of the storage operations (Load/Save of gc/safe_point) of 2-3 concurrent UpdateGCSafePoint (+1 Get) over value tuples from {10,20,30,40}, enumerated depth-first (distinct = value tuple x released (worker,op) sequence); free-running: 2-16 goroutines, <=3 ops each, random values (distinct = init x sequence of stored values); faulted histories: 8-14 steps from {update, update with fail-before / lost-ack on its save, get, burst of 2 updates + 1 get with a fault on the first save, leader re-election of the serving member} with unique values (distinct = step shape); service safe points: random sequential histories (distinct = accept/reject/remove shape), populated worlds of 60-330 prefix-related service ids drained in safe-point order (distinct = size) and gated concurrent registrations (distinct = schedule)")
 	r.Assume("UpdateGCSafePoint/GetGCSafePoint/UpdateServiceGCSafePoint are called on the *server.Server object (the gRPC handler methods) of a real bootstrapped single-member server; storage = core.NewStorage over an instrumented in-memory kv.Base (thorough: also the etcd-backed kv)")
 	r.Assume("expiry clause: lifetimes are measured on pd's own timestamp clock (as pd does); the check waits until that clock has passed the recorded expiry by more than a second")
 	rng := rand.New(rand.NewSource(r.ShardSeed()))
@@ -767,6 +767,7 @@ func main() {
 		e.dfsPhase()
 		e.stressPhase(rng)
 		e.servicePhase(rng)
+		e.servicePopulatedPhase(rng)
 		e.serviceGatedPhase()
 		r.Count("backends", 1)
 	}
